@@ -179,8 +179,8 @@ fn strat(t: Tier) -> proptest::strategy::BoxedStrategy<ValidCase> {
         ]
         .boxed(),
         Tier::Thorough => proptest::prop_oneof![
-            12 => valid_case_strategy(40, 60),
-            3 => valid_case_strategy(400, 200),
+            60 => valid_case_strategy(40, 60),
+            15 => valid_case_strategy(400, 200),
             1 => valid_case_strategy(20000, 2000),
         ]
         .boxed(),
